@@ -51,10 +51,11 @@ def acyclic(jobs, seqs):
 
 class Check(PropertyCheck):
     ID = "C14"
-    LEAN_MODULE = "JobShopProofs.SeqAccept"
+    LEAN_MODULE = "JobShopProofs.ScheduleDict"
     THEOREMS = ["JS.C14_ids", "JS.C14_counts", "JS.C14_dict_roundtrip", "JS.C14_taillard_roundtrip",
                 "JS.C14_machineLoads", "JS.C14_seq_result_reachable", "JS.C14_seq_terminates", "JS.C14_seq_rebuild", "JS.C14_seq_converse", "JS.hinv_run",
-                "JS.C14_seq_result_is_history_state", "JS.C14_seq_accept_iff", "JS.C14_seq_outcomes"]
+                "JS.C14_seq_result_is_history_state", "JS.C14_seq_accept_iff", "JS.C14_seq_outcomes",
+                "JS.C14_schedule_dict_roundtrip", "JS.C14_schedule_json_roundtrip", "JS.C14_instance_json_roundtrip"]
     RULE = ("(instance slice) every instance family incl. irregular and flexible: all derived views (counts, duration and "
             "machine matrices, padded array, operations by machine, loads, maxima, job durations, total) printed by the "
             "real properties and compared with the Lean model and with from-definition recomputations; round-trip through "
